@@ -480,6 +480,9 @@ func setPath(node any, path []any, v any) any {
 	return node
 }
 
+// indexWidth: list indices are numeric segments; a number may be written with leading zeros (EXECUTE_00, EXECUTE_01, ...)
+var indexWidth = 1
+
 func envName(prefix string, path []any) string {
 	parts := make([]string, len(path))
 
@@ -488,7 +491,7 @@ func envName(prefix string, path []any) string {
 		case string:
 			parts[i] = strings.ReplaceAll(k, "_", "__")
 		case int:
-			parts[i] = fmt.Sprint(k)
+			parts[i] = fmt.Sprintf("%0*d", indexWidth, k)
 		}
 	}
 
@@ -636,6 +639,9 @@ func TestFileAndEnvironmentAreEquivalent(t *testing.T) {
 		var all []leaf
 
 		leaves(tree, nil, &all)
+
+		indexWidth = rapid.SampledFrom([]int{1, 1, 1, 2, 3}).Draw(t, "widthOfListIndices")
+		vkit.S.LabelIf(indexWidth > 1, "list_indices_with_leading_zeros")
 
 		fromFile := load(dir, all, nil, nil)
 		fromEnv := load(dir, nil, all, nil)
